@@ -205,6 +205,19 @@ CHECKS["C16"] = dict(
           "real ListBuilder.run_once, every mutation observed with is_pubkey_allowed asked about every key, against it."),
     technique="TLA+ Validators.tla / DynLists.tla; bound-class events and observed refresh mutations of the real code validated by TLC; DynLists model-checked over all interleavings")
 
+CHECKS["C04"] = dict(
+    cat="exploration", ref="DESIGN.md §5 C04", note=RELAY_NOTE + (" The string domain (sub ids, contents, tag items) is sampled by palettes "
+        "(quotes/backslashes, NUL and control characters, non-BMP and bidi code points) and by numbers / booleans / null / nested arrays / "
+        "objects / empty strings / 2^53 as tag items, not enumerated; GET /e/<id> (falcon) is not in the loop, it serves storage.get_event "
+        "whose verbatim identity the store-level checks establish."),
+    text=("The recorder parses every frame written by web.start_client with a strict JSON parser and projects it onto the five shapes; an "
+          "EVENT frame is accepted only if its subscription id is one the client supplied and its event equals the accepted event in all "
+          "seven fields (so id and signature still verify); anything else is a GARBAGE line for which Relay.tla has no action and TLC "
+          "reports C04_WellFormedFrame. TLC-simulated schedules run with hostile subscription ids under four universes (plain, quotes, "
+          "NUL/control, unicode palettes; events whose tags carry non-string items) on both backends, stored and live delivery."),
+    technique="TLA+ Relay.tla trace validation by TLC with strict frame projection; palette-driven exploration of ids, contents and tag items")
+CHECKS["C04"]["level_override"] = "exploration"
+
 NOT_YET = {}
 
 
